@@ -362,4 +362,57 @@ Proof.
   unfold gbb_bounds. rewrite large_eq.
   replace (Rltb (-25 - 20) (- (20))) with true by (symmetry; apply Rltb_true; lra). reflexivity.
 Qed.
+(* ---------------------------------------------------------------- one site of the Gibbs sampler *)
+Section SITE.
+Variable tgauss : R -> R -> R.     (* law_gaussian as a function of its two uniforms: arbitrary *)
+Notation tightR := (constraint_tight R Rminus Ropp Rltb Rleb Q2R).
+Notation kindR := (bounds_kind R Rminus Ropp Rltb Rleb Q2R).
+Notation simulateR := (get_simulate R Rplus Rminus Rmult Rdiv Ropp Rltb Rleb Q2R Int_part wexp alog exp ln sqrt tgauss).
+Notation siteR := (gibbs_site R Rplus Rminus Rmult Rdiv Ropp Rltb Rleb Q2R Int_part wexp alog exp ln sqrt tgauss).
+
+Lemma get_simulate_in_bounds yk sk vmin vmax us v n m :
+  0 < sk -> ordered vmin vmax -> Forall u_ok us ->
+  simulateR yk sk vmin vmax us = GOk v n m ->
+  (forall l, vmin = Some l -> l <= v) /\ (forall h, vmax = Some h -> v <= h).
+Proof.
+  intros Hsk Ho Hus H. unfold get_simulate in H.
+  destruct vmin as [l|], vmax as [h|];
+    try (apply (gibbs_in_bounds yk sk _ _ us v n m Hsk Ho Hus H)).
+  split; intros ? E; discriminate.
+Qed.
+
+(* the value given to a site lies in its interval: for every generator state (every list of uniforms in
+   [0,1[), every law_gaussian, and each of the five kinds of bounds (free / lower / upper / two-sided / hard) *)
+Lemma gibbs_site_in_interval yk sk vmin vmax us v n m :
+  0 < sk -> ordered vmin vmax -> Forall u_ok us ->
+  siteR yk sk vmin vmax us = GOk v n m ->
+  (forall l, vmin = Some l -> l <= v) /\ (forall h, vmax = Some h -> v <= h).
+Proof.
+  intros Hsk Ho Hus H. unfold gibbs_site in H.
+  destruct (tightR vmin vmax) as [t|] eqn:Et.
+  - injection H as <- _ _. unfold constraint_tight in Et.
+    destruct vmin as [a|]; [|discriminate]. destruct vmax as [b|]; [|discriminate].
+    destruct (Rleb _ _); [|discriminate]. injection Et as <-.
+    pose proof (Ho a b eq_refl eq_refl).
+    split; intros ? E; injection E as <-; lra.
+  - apply (get_simulate_in_bounds yk sk vmin vmax us v n m Hsk Ho Hus H).
+Qed.
+
+(* the kind decides how many uniforms are consumed: none for a hard datum, two for a free sample *)
+Lemma gibbs_site_draws yk sk vmin vmax us v n m :
+  siteR yk sk vmin vmax us = GOk v n m ->
+  (kindR vmin vmax = KHard -> n = 0%nat /\ vmin = Some v) /\
+  (kindR vmin vmax = KFree -> n = 2%nat).
+Proof.
+  intro H. unfold gibbs_site in H. unfold bounds_kind.
+  destruct vmin as [a|], vmax as [b|]; cbn [constraint_tight] in *.
+  - destruct (Rleb _ _).
+    + injection H as <- <- _. split; [intros _; split; reflexivity| discriminate].
+    + split; discriminate.
+  - split; discriminate.
+  - split; discriminate.
+  - split; [discriminate|]. intros _. unfold get_simulate in H.
+    destruct us as [|u1 [|u2 r]]; try discriminate. injection H as _ <- _. reflexivity.
+Qed.
+End SITE.
 End GBB_R.
